@@ -4,6 +4,7 @@ package main
 
 import (
 	"fmt"
+	"go/ast"
 	"go/constant"
 	"go/token"
 	"go/types"
@@ -356,6 +357,13 @@ func (sc *Scope) lookupLocal(name string) *ssa.Alloc {
 	pos := token.NoPos
 	if sc.loop != nil {
 		pos = sc.loop.Pos
+		// names are resolved as seen from inside the loop body (the loop's own variables are declared after the `for` keyword)
+		switch n := sc.loop.Node.(type) {
+		case *ast.ForStmt:
+			pos = n.Body.Lbrace + 1
+		case *ast.RangeStmt:
+			pos = n.Body.Lbrace + 1
+		}
 	}
 	if pos.IsValid() {
 		if inner := sc.pkg.Scope().Innermost(pos); inner != nil {
